@@ -319,7 +319,8 @@ PROPS = {
 SCHEMA_HISTORY = (" Generated schemas: names over a tiny alphabet (ASCII letters/digits/-/_ plus a letter and a symbol above U+007F) with forced "
                   "prefixes, extensions, case variants and concatenation twins (a.x_n / a_x.n); one soft type in four is derived from another used type "
                   "(New, Copy, rename, add a field); one schema in four is built through a longer edit history (a throw-away type added and removed), "
-                  "one in six has its types taken out and put back in order after a few lookups.")
+                  "one in six has its types taken out and put back in order, the schema being really used (lookups, Check, Rels, URL parsing, "
+                  "full and partial unmarshaling) while the order is not the final one; struct-backed types declare their ID field anywhere.")
 EXTRA_RULE = {
     "C01": SCHEMA_HISTORY + " One soft resource in five has a field (attribute or relationship) that replaced a placeholder in its type after the "
            "values were set (reads as zero). Times include landmark instants (zero time in UTC and +05:30, Unix epoch, year 9999).",
@@ -329,9 +330,11 @@ EXTRA_RULE = {
     "C03": SCHEMA_HISTORY + " 0-10 Include calls (one case in six: 11-48), a marshal may come between Include calls, Document.Resources nil / empty / "
            "unrelated, prefixes containing %, lists of 30-70 members now and then.",
     "C04": SCHEMA_HISTORY + " Documents as in C02 (trimmed soft members of the same type name, large lists, URL filters and page parameters).",
-    "C05": SCHEMA_HISTORY + " Mutated documents include lists of 30-70 members.",
+    "C05": SCHEMA_HISTORY + " Mutated documents include lists of 30-70 members; mutations include editing a string in place (character dropped, "
+           "prefix, suffix, doubled, emptied).",
     "C06": SCHEMA_HISTORY + " One payload case in four is preceded by another request for the same type (accepted, or refused because its id is a number); "
-           "a bytes attribute must re-marshal as a JSON string.",
+           "one in four runs as the second member of a collection (UnmarshalCollection) whose first member is of any type; a bytes attribute must "
+           "re-marshal as a JSON string.",
     "C07": SCHEMA_HISTORY + " Sort rules with several leading dashes and other decorations (up to 12 rules), fields lists naming fields of other types, "
            "filter labels in any JSON escape style.",
     "C08": SCHEMA_HISTORY + " Empty filter= / sort= / include= / fields[t]= among the accepted parameters; filter labels in any JSON escape style incl. "
@@ -340,14 +343,15 @@ EXTRA_RULE = {
     "C09": " Attribute names with dashes, underscores, non-ASCII letters and 'id' inside; one ID list, filter and rules slice per case handed to every "
            "Range call; every page returned during a case is read again at the end, after two unrelated Range calls on the same collection.",
     "C10": " One built filter is evaluated, some of its leaf values are replaced (in place for lists of equal length) and it is evaluated again; leaf "
-           "filters whose value is the one read from the resource itself (same pointer / slice).",
+           "filters whose value is the one read from the resource itself (same pointer / slice); filters that use one sub-filter object at several "
+           "places; unknown operators that look like known ones (==, !==, <==, =<, <>, '', IN, Has).",
     "C11": SCHEMA_HISTORY + " Documents as in C02; included IDs chosen so that type+ID (either order) coincide with an earlier included resource when the "
            "type names allow it; after the repeated marshals the lists of the same document and URL objects are permuted in place and marshaled again; "
            "the observable state includes page parameters, filter label and filter tree as they read.",
     "C12": SCHEMA_HISTORY + " Further operation: New() on schema.Types[i] itself. At most one relationship with an empty FromType. Unmarshal results are "
            "kept and re-read when a goroutine's list is done; a result's resource-level meta must be empty or the request's own.",
     "C13": SCHEMA_HISTORY + " Trailing text after the resource object; to-many lists of the partial and the full result compared in order; unknown "
-           "relationships without data.",
+           "relationships without data; names placed under the wrong member (a relationship among the attributes, an attribute among the relationships).",
     "C14": " Names include a_b / a-b types, non-ASCII names, two-way relationships whose ends concatenate to the same string, invalid kinds next to the "
            "valid range and extreme integers; a failed edit is also compared with a snapshot that tells nil maps from empty ones; lookups are made after "
            "two edits in three only.",
